@@ -22,6 +22,7 @@ const (
 	limbToFloat                       // float result is the real number the 128-bit input denotes
 	limbIsZero                        // result <=> the 128-bit input is zero (a conjunction of limb tests)
 	limbProdEqual                     // result <=> |in0|*|in1| == |in2|*|in3| (conjunction of limb equalities; signs are C15.pred's)
+	limbCollinear                     // result <=> |sx-p1x|*|p2y-sy| == |sy-p1y|*|p2x-sx| for three points (magnitudes; signs are C15.pred's)
 )
 
 type limbSpec struct {
@@ -30,6 +31,7 @@ type limbSpec struct {
 	modular bool // the result is specified modulo 2^128 (two's complement words)
 	what    string
 	why     string
+	through []string // helpers through which a boolean result is returned (their comparisons are the function's own)
 }
 
 // limbInput builds the abstract arguments of f. Signed scalar inputs are listed for sign enumeration.
@@ -39,8 +41,16 @@ type limbInput struct {
 	signed []string
 }
 
-func (e *limbEngine) inputs(f *ssa.Function, st *lstate) limbInput {
-	var in limbInput
+func (e *limbEngine) inputs(f *ssa.Function, st *lstate) (in limbInput) {
+	defer func() {
+		if e.atomise { // coordinates: |c| < 2^62 (MaxCoord is 2^61), no sign enumeration — the differences are named instead
+			lim := new(big.Int).Sub(new(big.Int).Lsh(big.NewInt(1), 62), big.NewInt(1))
+			for _, a := range in.signed {
+				st.lo[a], st.hi[a] = new(big.Int).Neg(lim), lim
+			}
+			in.signed = nil
+		}
+	}()
 	atom := func(name string, t types.Type) *lval {
 		lo, hi, sg, ok := typeRange(t)
 		v := &lval{p: patom(name), signed: sg}
@@ -128,7 +138,7 @@ func forEachSign(st *lstate, signed []string, body func(st *lstate, desc string)
 // forkBool resolves a returned boolean into the two outcomes it can take on the path.
 func (e *limbEngine) forkBool(f *ssa.Function, st *lstate, ret *lval, k func(*lstate, bool, bool)) {
 	fr := &lframe{f: f, vals: map[ssa.Value]*lval{}, st: st, top: true}
-	if ret == nil || (ret.cbool == nil && ret.cmp == nil) {
+	if ret == nil || (ret.cbool == nil && ret.cmp == nil && ret.conj == nil) {
 		k(st, false, false)
 		return
 	}
@@ -155,7 +165,16 @@ type limbResult struct {
 func checkLimbSpec(c *Ctx, sp limbSpec) limbResult {
 	f := c.fn(sp.fn)
 	e := newLimbEngine(c)
-	e.noTopSubst = sp.kind == limbIsZero || sp.kind == limbProdEqual
+	e.noTopSubst = sp.kind == limbIsZero || sp.kind == limbProdEqual || sp.kind == limbCollinear
+	if sp.kind == limbCollinear {
+		e.atomise = true
+		e.topFns = map[*ssa.Function]bool{f: true}
+		for _, n := range sp.through {
+			if g := c.fnOpt(n); g != nil {
+				e.topFns[g] = true
+			}
+		}
+	}
 	st0 := &lstate{sub: map[string]lpoly{}, lo: map[string]*big.Int{}, hi: map[string]*big.Int{}, exact: map[*lval]bool{}, wrap1: map[*lval]bool{}, mem: map[lmemKey]*lval{}}
 	in := e.inputs(f, st0)
 	res := limbResult{}
@@ -171,10 +190,14 @@ func checkLimbSpec(c *Ctx, sp limbSpec) limbResult {
 	if sp.modular {
 		modulus = two128
 	}
+	signKnown := true
 	abs := func(st *lstate, p lpoly) lpoly {
-		_, hi := st.interval(p)
-		if hi != nil && hi.Sign() < 0 {
+		lo, hi := st.interval(p)
+		if hi != nil && hi.Sign() <= 0 {
 			return pneg(p)
+		}
+		if lo == nil || lo.Sign() < 0 {
+			signKnown = false // the magnitude is not a polynomial on this path
 		}
 		return p
 	}
@@ -257,7 +280,7 @@ func checkLimbSpec(c *Ctx, sp limbSpec) limbResult {
 				if !t.isZero() {
 					fail(desc, fmt.Sprintf("returned value - denoted value = %s, not 0", t))
 				}
-			case limbIsZero, limbProdEqual:
+			case limbIsZero, limbProdEqual, limbCollinear:
 				e.forkBool(f, st, ret, func(st2 *lstate, val, ok bool) {
 					if !ok {
 						fail(desc, "the result is not a boolean combination of limb comparisons")
@@ -272,20 +295,85 @@ func checkLimbSpec(c *Ctx, sp limbSpec) limbResult {
 			}
 		})
 	})
-	if sp.kind == limbIsZero || sp.kind == limbProdEqual {
+	if sp.kind == limbIsZero || sp.kind == limbProdEqual || sp.kind == limbCollinear {
 		conj := map[*ssa.BinOp]bool{}
 		nTrue := 0
+		// the quantity whose vanishing the function decides, per path (magnitudes take the sign known on the path)
+		targetOf := func(st *lstate) lpoly {
+			switch sp.kind {
+			case limbIsZero:
+				return in.denote[0]
+			case limbProdEqual:
+				return psub(pmul(abs(st, in.denote[0]), abs(st, in.denote[1])), pmul(abs(st, in.denote[2]), abs(st, in.denote[3])))
+			}
+			// limbCollinear: points in0, in1 (shared), in2 with fields X, Y
+			co := func(i int, fld string) lpoly { return patom(fmt.Sprintf("in%d.%s", i, fld)) }
+			named := func(x lpoly) lpoly { // the difference as the function itself named it, if it did
+				for a, d := range e.diffDefs {
+					if psub(d, x).isZero() {
+						return patom(a)
+					}
+					if padd(d, x).isZero() {
+						return pneg(patom(a))
+					}
+				}
+				return x
+			}
+			A := named(psub(co(1, "X"), co(0, "X")))
+			B := named(psub(co(2, "Y"), co(1, "Y")))
+			C := named(psub(co(1, "Y"), co(0, "Y")))
+			D := named(psub(co(2, "X"), co(1, "X")))
+			return psub(pmul(abs(st, A), abs(st, B)), pmul(abs(st, C), abs(st, D)))
+		}
+		// the signed quantity (shortcuts in front of the word comparison reason about it directly); its vanishing
+		// implies that of the magnitude form, and the magnitude form plus the sign comparison imply it
+		signedTarget := func(st *lstate) (lpoly, bool) {
+			if sp.kind != limbCollinear {
+				return nil, false
+			}
+			co := func(i int, fld string) lpoly { return patom(fmt.Sprintf("in%d.%s", i, fld)) }
+			A := psub(co(1, "X"), co(0, "X"))
+			B := psub(co(2, "Y"), co(1, "Y"))
+			C := psub(co(1, "Y"), co(0, "Y"))
+			D := psub(co(2, "X"), co(1, "X"))
+			return psub(pmul(A, B), pmul(C, D)), true
+		}
+		// express in coordinates (named differences expanded) under the path's equalities
+		inCoords := func(st *lstate, p lpoly) lpoly {
+			s2 := st.clone()
+			// the equalities as statements about coordinates
+			for _, ft := range st.facts {
+				if ft.top && ft.holdsEq() {
+					if a, q, ok := unitAtom(e.expandDiffs(s2.norm(ft.d))); ok && strings.HasPrefix(a, "in") {
+						s2.sub[a] = q
+					}
+				}
+			}
+			return s2.norm(e.expandDiffs(p))
+		}
+		// what the path's own equalities say, as substitutions
+		withFacts := func(st *lstate) *lstate {
+			s2 := st.clone()
+			for _, ft := range st.facts {
+				if ft.top && ft.holdsEq() {
+					if a, q, ok := unitAtom(s2.norm(ft.d)); ok {
+						s2.sub[a] = q
+					}
+				}
+			}
+			return s2
+		}
+		isZeroUnder := func(st *lstate, p lpoly) bool {
+			r, m := e.recombine(st, p, nil)
+			return m == "" && e.expandDiffs(r).isZero()
+		}
 		for _, po := range bools {
 			if !po.val {
 				continue
 			}
 			nTrue++
-			var target lpoly
-			if sp.kind == limbIsZero {
-				target = in.denote[0]
-			} else {
-				target = psub(pmul(abs(po.st, in.denote[0]), abs(po.st, in.denote[1])), pmul(abs(po.st, in.denote[2]), abs(po.st, in.denote[3])))
-			}
+			signKnown = true
+			target := targetOf(po.st)
 			var eqs []lfact
 			for _, ft := range po.st.facts {
 				if ft.top && ft.site != nil {
@@ -301,15 +389,23 @@ func checkLimbSpec(c *Ctx, sp limbSpec) limbResult {
 				}
 			}
 			// target must be a combination of the path's equalities using every one of them, at word weights
-			tz, msg := e.recombine(po.st, target, nil)
-			if msg == "" && tz.isZero() && len(eqs) == 0 {
+			if ts, ok := signedTarget(po.st); ok && inCoords(po.st, ts).isZero() {
+				continue // the equalities met on the path make the signed quantity vanish identically
+			}
+			if isZeroUnder(withFacts(po.st), target) && signKnown {
+				continue // the equalities met on the path make the quantity vanish term by term
+			}
+			if !signKnown {
+				fail(po.desc, "returns true on a path where the equalities met do not make the quantity vanish and the operands' signs are not known (the word comparison is reached without taking magnitudes?)")
 				continue
 			}
 			if len(eqs) == 0 || len(eqs) > 5 {
 				fail(po.desc, fmt.Sprintf("returns true after %d word equalities; they cannot establish %s == 0", len(eqs), target))
 				continue
 			}
-			ws := []*big.Int{big.NewInt(1), big.NewInt(-1), two64, new(big.Int).Neg(two64)}
+			// weight 0: an equality met on the way that the argument does not need (a failed shortcut test's
+			// complement, a guard); an equality that is WRONGLY required shows on the `false` side, below
+			ws := []*big.Int{big.NewInt(1), big.NewInt(-1), two64, new(big.Int).Neg(two64), big.NewInt(0)}
 			found := false
 			idx := make([]int, len(eqs))
 			for !found {
@@ -317,7 +413,7 @@ func checkLimbSpec(c *Ctx, sp limbSpec) limbResult {
 				for i, ft := range eqs {
 					comb = padd(comb, pscale(ft.d, ws[idx[i]]))
 				}
-				if r, m := e.recombine(po.st, psub(comb, target), nil); m == "" && r.isZero() {
+				if isZeroUnder(po.st, psub(comb, target)) {
 					found = true
 					break
 				}
@@ -355,10 +451,108 @@ func checkLimbSpec(c *Ctx, sp limbSpec) limbResult {
 					last = ft
 				}
 			}
-			if last == nil {
-				fail(po.desc, "returns false on a path where no word equality failed")
-			} else if !conj[last.site] {
-				fail(po.desc, fmt.Sprintf("returns false because of the test at %s, which is not one of the word equalities a `true` answer rests on", c.pos(last.site.Pos())))
+			if last != nil {
+				// (signs) a comparison of constants decided by the path's sign case: the sign logic is C14.sign / C15.pred's
+				if k, ok := po.st.norm(last.d).isConst(); ok && k.Sign() != 0 {
+					continue
+				}
+				// (words) the failed equality f is one word of a radix representation of the quantity T: for a weight w
+				// in {1, 2^64} either T - w*f is identically a multiple of the next weight and |f| is below it, or the rest
+				// T - w*f is smaller than w in magnitude; in both cases T = 0 forces f = 0
+				okWord := false
+				signKnown = true
+				T := targetOf(po.st)
+				var known []lpoly // equalities established on this path
+				for _, ft := range po.st.facts {
+					if ft.top && ft.holdsEq() && !ft.d.isZero() {
+						known = append(known, ft.d)
+					}
+				}
+				wts := []*big.Int{big.NewInt(1), big.NewInt(-1), two64, new(big.Int).Neg(two64)}
+				try := func(base lpoly) {
+					for _, w := range wts {
+						R := psub(base, pscale(last.d, w))
+						next := new(big.Int).Mul(new(big.Int).Abs(w), two64)
+						if r, m := e.recombine(po.st, R, next); m == "" && e.expandDiffs(r).mod(next).isZero() {
+							lo, hi := po.st.interval(last.d)
+							if lo != nil && lo.CmpAbs(two64) < 0 && hi.CmpAbs(two64) < 0 {
+								okWord = true
+							}
+						}
+						if r, m := e.recombine(po.st, R, nil); m == "" {
+							lo, hi := po.st.interval(e.expandDiffs(r))
+							if lo != nil && lo.CmpAbs(w) < 0 && hi.CmpAbs(w) < 0 {
+								okWord = true
+							}
+						}
+					}
+				}
+				if signKnown {
+					try(T)
+				}
+				if signKnown && !okWord && len(known) > 0 && len(known) <= 3 {
+					idx := make([]int, len(known))
+					for !okWord {
+						base := T
+						for i, g := range known {
+							base = psub(base, pscale(g, wts[idx[i]]))
+						}
+						try(base)
+						k := 0
+						for ; k < len(idx); k++ {
+							idx[k]++
+							if idx[k] < len(wts) {
+								break
+							}
+							idx[k] = 0
+						}
+						if k == len(idx) {
+							break
+						}
+					}
+				}
+				if okWord {
+					continue
+				}
+			}
+			// otherwise the quantity must be visibly non-zero: under the path's equalities it is (up to sign) a
+			// product of values the path found to be non-zero
+			s2 := withFacts(po.st)
+			tp, m := e.recombine(s2, targetOf(po.st), nil)
+			okNZ := false
+			if ts, ok := signedTarget(po.st); ok {
+				tp, m = inCoords(po.st, ts), ""
+			}
+			if m == "" {
+				tp = e.expandDiffs(tp)
+				var nz []lpoly
+				for _, ft := range po.st.facts {
+					if ft.top && ft.failsEq() {
+						if sp.kind == limbCollinear {
+							nz = append(nz, inCoords(po.st, ft.d))
+						} else {
+							nz = append(nz, e.expandDiffs(s2.norm(ft.d)))
+						}
+					}
+				}
+				same := func(a, b lpoly) bool { return psub(a, b).isZero() || padd(a, b).isZero() }
+				for i := range nz {
+					if same(tp, nz[i]) {
+						okNZ = true
+					}
+					for j := i; j < len(nz); j++ {
+						if same(tp, pmul(nz[i], nz[j])) {
+							okNZ = true
+						}
+					}
+				}
+			}
+			switch {
+			case okNZ:
+			case last == nil:
+				fail(po.desc, "returns false on a path where no equality failed")
+			default:
+				fail(po.desc, fmt.Sprintf("returns false because of the test at %s, which is not one of the equalities a `true` answer rests on, and the path does not show that %s is non-zero (it reduces to %s)", c.pos(last.site.Pos()), targetOf(po.st), tp))
 			}
 		}
 		res.paths = len(bools)
@@ -378,20 +572,22 @@ func describeOpaque(e *limbEngine, v *lval, p lpoly) string {
 }
 
 var limbSpecs = []limbSpec{
-	{"multiplyUInt64", limbProduct, false, "Lo64 + 2^64*Hi64 == a*b for all uint64 a, b (every partial product and every carry used once, at its weight, with no intermediate overflow)",
-		"productsAreEqual decides collinearity by comparing these two words: a dropped or misplaced carry makes distinct products compare equal (or equal ones differ) only for large operands, which no fixed test set reaches"},
-	{"mulInt64", limbProduct, true, "lo + 2^64*hi == a*b (two's complement, modulo 2^128) for all int64 a, b, in each of the four sign cases",
-		"CrossProduct, dotProduct64, Area64 and the intersection point take their exactness from this product: a wrong sign correction appears only when an operand is negative and the product exceeds 64 bits"},
-	{"(int128).add", limbSum, true, "(lo, hi) of the result denote x + y modulo 2^128: the carry of the low words enters the high words",
-		"a lost carry changes a cross product by 2^64 only when the low words overflow"},
-	{"(int128).sub", limbDiff, true, "(lo, hi) of the result denote x - y modulo 2^128: the borrow of the low words leaves the high words",
-		"a lost borrow changes a cross product by 2^64 only when the low word of x is below that of y"},
-	{"(int128).toFloat64", limbToFloat, false, "the float returned is lo + 2^64*hi (as a real number, before rounding) in both sign cases, including the carry of the two-word negation; no word that may have wrapped is converted",
-		"the sign of a cross product decides orientation, hole-ness and point-in-polygon: a wrong negation carry or a signed reading of the low word flips it only for products beyond 64 bits"},
-	{"(int128).isZero", limbIsZero, false, "true exactly when both words are zero",
-		"collinearity and 'on the edge' are zero tests of a 128-bit value; testing one word only confuses multiples of 2^64 with zero"},
-	{"productsAreEqual", limbProdEqual, false, "true only when both words of |a|*|b| and |c|*|d| are equal, false only when one of these comparisons (or the sign comparison) fails; no shortcut compares a 64-bit product that may have wrapped",
-		"isCollinear is exact for all int64 coordinates only if the 128-bit products are compared in full"},
+	{fn: "multiplyUInt64", kind: limbProduct, modular: false, what: "Lo64 + 2^64*Hi64 == a*b for all uint64 a, b (every partial product and every carry used once, at its weight, with no intermediate overflow)",
+		why: "productsAreEqual decides collinearity by comparing these two words: a dropped or misplaced carry makes distinct products compare equal (or equal ones differ) only for large operands, which no fixed test set reaches"},
+	{fn: "mulInt64", kind: limbProduct, modular: true, what: "lo + 2^64*hi == a*b (two's complement, modulo 2^128) for all int64 a, b, in each of the four sign cases",
+		why: "CrossProduct, dotProduct64, Area64 and the intersection point take their exactness from this product: a wrong sign correction appears only when an operand is negative and the product exceeds 64 bits"},
+	{fn: "(int128).add", kind: limbSum, modular: true, what: "(lo, hi) of the result denote x + y modulo 2^128: the carry of the low words enters the high words",
+		why: "a lost carry changes a cross product by 2^64 only when the low words overflow"},
+	{fn: "(int128).sub", kind: limbDiff, modular: true, what: "(lo, hi) of the result denote x - y modulo 2^128: the borrow of the low words leaves the high words",
+		why: "a lost borrow changes a cross product by 2^64 only when the low word of x is below that of y"},
+	{fn: "(int128).toFloat64", kind: limbToFloat, modular: false, what: "the float returned is lo + 2^64*hi (as a real number, before rounding) in both sign cases, including the carry of the two-word negation; no word that may have wrapped is converted",
+		why: "the sign of a cross product decides orientation, hole-ness and point-in-polygon: a wrong negation carry or a signed reading of the low word flips it only for products beyond 64 bits"},
+	{fn: "(int128).isZero", kind: limbIsZero, modular: false, what: "true exactly when both words are zero",
+		why: "collinearity and 'on the edge' are zero tests of a 128-bit value; testing one word only confuses multiples of 2^64 with zero"},
+	{fn: "isCollinear", kind: limbCollinear, through: []string{"productsAreEqual"}, what: "true only when |a|*|b| == |c|*|d| for the coordinate differences a, b, c, d of the three points (both words of both products compared, or a factor of each product found zero); false only when one of those comparisons fails or the difference is a product of values found non-zero",
+		why: "every shortcut in front of the 128-bit comparison must agree with it for degenerate inputs too (coincident points, axis-parallel edges): a wrong shortcut changes which vertices TrimCollinear, cleanCollinear and the offsetter treat as redundant"},
+	{fn: "productsAreEqual", kind: limbProdEqual, modular: false, what: "true only when both words of |a|*|b| and |c|*|d| are equal, false only when one of these comparisons (or the sign comparison) fails; no shortcut compares a 64-bit product that may have wrapped",
+		why: "isCollinear is exact for all int64 coordinates only if the 128-bit products are compared in full"},
 }
 
 // ruleLimb emits one obligation per limb specification whose function is in `fns`.
